@@ -61,6 +61,7 @@ class Session:
         self.exc = exc
         self._calib: Dict[str, Dict[str, int]] = {}
         self.log_dir: Optional[str] = None        # set to also write the records to disk with the real appender
+        self.post_cfg: Dict[Tuple[str, ...], Any] = {}   # leaves set AFTER validation (the engine also runs on raw configs)
 
     # ---- configuration ----
     def cfg_for(self, inp: dict) -> dict:
@@ -86,6 +87,11 @@ class Session:
         from clematis.engine.stages.t3 import deliberate as real_deliberate
         self.turn += 1
         cfg = E.validated_cfg(self.cfg_for(inp))
+        for path, val in self.post_cfg.items():
+            node = cfg
+            for k in path[:-1]:
+                node = node[k]
+            node[path[-1]] = copy.deepcopy(val)
         if inp.get("reuse") and self.ctx is not None:
             ctx = self.ctx
             ctx.turn_id = self.turn
@@ -143,9 +149,13 @@ class Session:
             def bad_reflect(*a, **k):
                 raise self.exc("verif: reflect")
             patches.append(E.patched_attr(orch, reflect=bad_reflect))
-        elif inp.get("refl_out") == "timeout":
+        elif inp.get("refl_out") == "timeout" or inp.get("refl_elapsed_ms") is not None:
+            # timeout: 7000 ms > time_ms_reflection = 6000 unless the vector names the elapsed time itself
+            # (boundary values: budget + 0.4 ms is a timeout, exactly the budget is not)
+            el_ms = float(inp["refl_elapsed_ms"]) if inp.get("refl_elapsed_ms") is not None else 7000.0
+
             def slow_reflect(*a, **k):
-                fake.t += 7.0        # 7000 ms > time_ms_reflection = 6000
+                fake.t += el_ms / 1000.0
                 return real_reflect(*a, **k)
             patches.append(E.patched_attr(orch, reflect=slow_reflect))
         self.refl_index.fail = self.exc if "refl_write" in faults else None
